@@ -4,6 +4,8 @@
 package world
 
 import (
+	"crypto/aes"
+	"crypto/cipher"
 	"bytes"
 	"context"
 	"crypto/sha256"
@@ -130,6 +132,61 @@ func LinkKey(k int) enc.SharedKey {
 		panic(err)
 	}
 	return sk
+}
+
+// gcmKey is a shared link key of another make than the library's secretbox: AES-256-GCM with 12-byte nonces. The
+// codec is handed an enc.SharedKey and has no business with what is inside it.
+type gcmKey struct{ aead cipher.AEAD }
+
+// GCMKey returns a new object holding the deterministic AES-GCM shared key number k.
+func GCMKey(k int) enc.SharedKey {
+	h := sha256.Sum256([]byte(fmt.Sprintf("verif-gcm-linkkey-%d", k)))
+	b, err := aes.NewCipher(h[:])
+	if err != nil {
+		panic(err)
+	}
+	a, err := cipher.NewGCM(b)
+	if err != nil {
+		panic(err)
+	}
+	return &gcmKey{aead: a}
+}
+
+func (g *gcmKey) DeriveNonce(input []byte) ([]byte, error) {
+	h := sha256.Sum256(append([]byte("verif-gcm-nonce:"), input...))
+	return append([]byte(nil), h[:g.aead.NonceSize()]...), nil
+}
+
+func (g *gcmKey) SealWithNonce(plain, nonce []byte) ([]byte, error) {
+	if len(nonce) != g.aead.NonceSize() {
+		return nil, fmt.Errorf("gcm key: nonce of %d bytes", len(nonce))
+	}
+	return g.aead.Seal(nil, nonce, plain, nil), nil
+}
+
+func (g *gcmKey) OpenWithNonce(sealed, nonce []byte) ([]byte, error) {
+	if len(nonce) != g.aead.NonceSize() {
+		return nil, fmt.Errorf("gcm key: nonce of %d bytes", len(nonce))
+	}
+	return g.aead.Open(nil, nonce, sealed, nil)
+}
+
+func (g *gcmKey) Seal(plain []byte) ([]byte, error) {
+	nonce, _ := g.DeriveNonce(plain)
+	return g.aead.Seal(append([]byte(nil), nonce...), nonce, plain, nil), nil
+}
+
+func (g *gcmKey) Open(sealed []byte) ([]byte, error) {
+	n := g.aead.NonceSize()
+	if len(sealed) < n {
+		return nil, fmt.Errorf("gcm key: short message")
+	}
+	return g.aead.Open(nil, sealed[:n], sealed[n:], nil)
+}
+
+// IOWithKey returns a fresh CBOR codec that seals links with the given shared key.
+func IOWithKey(sk enc.SharedKey) iface.IO {
+	return baseCBOR().ApplyOptions(&cbor.Options{LinkKey: sk})
 }
 
 // DebugIO returns a private CBOR codec instance (default or link-key) whose debug switch is on.
